@@ -252,11 +252,12 @@ func (s *Schema) Source() string {
 // Validate checks the naming discipline stated above (harness self check; no dynamicgo involved).
 func (s *Schema) Validate() error {
 	names := map[string]bool{}
+	// (the cache keyed by simple name was repaired: equal simple names in different scopes are part of the scope now)
 	for _, m := range s.Msgs {
-		if names[m.Name] {
-			return fmt.Errorf("schema %s: duplicate simple message name %s", s.ID, m.Name)
+		if names[m.FullName()] {
+			return fmt.Errorf("schema %s: duplicate message name %s", s.ID, m.FullName())
 		}
-		names[m.Name] = true
+		names[m.FullName()] = true
 	}
 	mapNames := map[string]bool{}
 	for _, m := range s.Msgs {
